@@ -852,6 +852,9 @@ func checkProperty(id, tier string) int {
 		fmt.Printf("VIOLATION property=%s replay=%s obligation=%s%s\n", id, rp.path, v.Name, suffix)
 		exit = 1
 	}
+	for _, d := range P.Dangling {
+		fmt.Fprintln(os.Stderr, "note:", d)
+	}
 	for i, e := range engineErrs {
 		if i < 25 {
 			fmt.Fprintln(os.Stderr, "engine:", e)
@@ -940,6 +943,7 @@ func checkProperty(id, tier string) int {
 		"bounded":                  prop.Bounded,
 		"bounded_checks":           boundedOut,
 		"engine_errors":            engineErrs,
+		"dangling_contracts":       P.Dangling,
 		"vacuity_covers":           len(covers),
 		"explanation":              levelText(prop, total, discharged, knownHit),
 	}
